@@ -249,7 +249,7 @@ class Contrasts(metaclass=InterfaceMeta):
 
         # Short-circuit when we know the output encoding will be empty
         if not levels or len(levels) == 1 and reduced_rank:
-            if output == "pandas":
+            if output in ("pandas", "narwhals"):
                 encoded = pandas.DataFrame(
                     index=(
                         dummies.index
